@@ -528,7 +528,7 @@ Section StepProofs.
     destruct ra as [r|]; [|discriminate].
     match goal with |- context [run_skip fuel ?st ?sk ?pv ?j0] =>
       destruct (run_skip fuel st sk pv j0) as [[j w']|c|c|] eqn:Er end; cbn [bind]; try discriminate.
-    - destruct w'; try discriminate. destruct (if memN r users then [] else [r]); discriminate.
+    - destruct w'; discriminate.
     - exfalso. eapply run_skip_no_panic; eauto.
   Qed.
 
@@ -614,12 +614,13 @@ Section StepProofs.
                     (i < s')%nat /\ step_in (S fuel) s' = Ok (s, WDone)).
   Proof.
     intros Ep Hf Hrows Hne H.
-    destruct (C03_next_decompose _ _ _ _ _ _ _ _ Ep Hf Hrows H) as (s' & w' & Er & [(-> & Hw)|(-> & (q & r & Eq & -> & Hpc & Hsi))]).
-    - left. destruct Hw as [(sg & -> & Hd)|->]; [discriminate|].
+    destruct (C03_next_decompose _ _ _ _ _ _ _ _ Ep Hf Hrows H) as (s' & w' & Er & Hcase).
+    destruct Hcase as [[Hs Hw]|[Hw' (q & r & Eq & Hra & Hpc & Hsi)]].
+    - subst s'. left. destruct Hw as [(sg & Hw1 & Hd)|Hw1]; [congruence|]. subst w'.
       destruct (C03_next _ _ _ _ _ _ _ Ep Hne Er) as (_ & (q & Eq & Hc & _) & _).
       intros p1 q1 E1 E2. cbn [fst] in E2. rewrite Ep in E1. rewrite Eq in E2.
       inversion E1; inversion E2; subst. exact Hc.
-    - right. destruct (C03_next _ _ _ _ _ _ _ Ep Hne Er) as (Hlt & (q' & Eq' & Hc & _) & _).
+    - subst w'. right. destruct (C03_next _ _ _ _ _ _ _ Ep Hne Er) as (Hlt & (q' & Eq' & Hc & _) & _).
       rewrite Eq in Eq'. inversion Eq'; subst q'.
       exists s', q, r. auto 10.
   Qed.
